@@ -17,6 +17,7 @@ import (
 	"io"
 	"math/rand"
 	"os"
+	"os/exec"
 	"path/filepath"
 	"strconv"
 	"strings"
@@ -748,6 +749,7 @@ func RunC06(tier string) {
 	run.Add("histories", nh)
 	run.Sample(map[string]interface{}{"recipients": rsSig(t.Cases[len(t.Cases)/3].Rs), "plan": t.Cases[len(t.Cases)/3].Plan})
 	nonceReuseAfterWriteError(run, rng)
+	repoSuiteTrace(run)
 	if run.Thorough() {
 		secondCarry(run, rng)
 	}
@@ -879,4 +881,48 @@ func mathRandGuard(run *vk.Run) {
 	for _, o := range offenders {
 		run.Violation("C06:math-rand-imported:"+o, o+" imports math/rand: a non-cryptographic generator in a non-test source file other than plugin/client.go", nil)
 	}
+}
+
+// repoSuiteTrace runs the repository's own test suite built with the verif tag and VERIF_TRACE set, so that every STREAM
+// chunk sealed or opened and every scrypt derivation anywhere in `go test ./...` is logged, and validates the log against
+// spec/HookTrace.tla: the tests already reach these paths, the specification adds the per-step assertions.
+func repoSuiteTrace(run *vk.Run) {
+	dir, err := os.MkdirTemp("", "c06trace-")
+	if err != nil {
+		vk.Infra("%v", err)
+	}
+	defer os.RemoveAll(dir)
+	trace := filepath.Join(dir, "hooks.ndjson")
+	cmd := exec.Command("go", "test", "-tags", "verif", "-vet=off", "-count=1", ".", "./internal/stream", "./agessh", "./armor", "./cmd/age")
+	cmd.Dir = vk.RepoRoot()
+	cmd.Env = append(os.Environ(), "GOFLAGS=-mod=mod", "GOPROXY=off", "GOSUMDB=off", "VERIF_TRACE="+trace)
+	out, _ := cmd.CombinedOutput() // test failures are the suite's business; only the trace matters here
+	b, err := os.ReadFile(trace)
+	if err != nil || len(b) == 0 {
+		if strings.Contains(string(out), "build failed") || strings.Contains(string(out), "cannot find") {
+			vk.Infra("the repository's tests did not build with -tags verif:\n%s", string(out))
+		}
+		run.Drift("the repository's suite produced no hook trace (hooks without VERIF_TRACE support?)")
+		return
+	}
+	nlines := bytes.Count(b, []byte("\n"))
+	cfg := "SPECIFICATION Spec\nCONSTANTS\n C = 65536\n MaxLogN = 22\nCONSTRAINT HighWater\nPOSTCONDITION Accepted\nCHECK_DEADLOCK FALSE\n"
+	res := run.TLC("repo-suite-hook-trace", vk.TLCOpts{Module: "HookTrace", Config: cfg, Workers: 1, Env: map[string]string{"TRACE": trace}})
+	run.Traces(1)
+	run.Add("repo_suite_hook_events", nlines)
+	if acc := res.PrintsWithPrefix("ACCEPTED "); len(acc) == 1 {
+		return
+	}
+	if rej := res.PrintsWithPrefix("REJECTED "); len(rej) == 1 {
+		var at int
+		fmt.Sscan(rej[0], &at)
+		lines := bytes.Split(b, []byte("\n"))
+		ev := ""
+		if at >= 1 && at <= len(lines) {
+			ev = string(lines[at-1])
+		}
+		run.Violation("C06:repo-suite-trace-rejected", fmt.Sprintf("while the repository's own tests ran, the library took a step HookTrace.tla does not allow at event %d: %s", at, ev), map[string]interface{}{"check": "C06.hooktrace", "event": ev})
+		return
+	}
+	vk.Infra("HookTrace gave no verdict:\n%s", res.Output)
 }
